@@ -6,10 +6,23 @@ import glob, json, sys, os
 import numpy as np
 sys.path.insert(0, os.path.dirname(os.path.dirname(os.path.abspath(__file__))))
 recdir = sys.argv[1]
+CAP = 0.5  # an envelope above 50 % would let a field of zero pass: such buckets are findings, not tolerances
 recs = [json.loads(l) for f in glob.glob(os.path.join(recdir, "*.jsonl")) for l in open(f)]
 def tb(t): return "0" if t <= 0 else str(int(np.clip(np.floor(np.log10(t)), -17, 3)))
 def db(d): return str(int(np.clip(np.floor(np.log10(max(d, 1e-30))), -4, 4)))
 tab = {}
+def known(r):
+    """records inside the scope of an open finding do not calibrate the envelope"""
+    if r["cls"] == "CylinderSegment" and r.get("raxis", 1e30) < 1e-3:
+        return True
+    if r["cls"] == "TriangularMesh" and r.get("coplanar") == ">=2" and r["field"] == "B":
+        return True
+    return False
+
+
+nknown = sum(1 for r in recs if known(r))
+print("records:", len(recs), "in known-finding scopes (excluded):", nknown)
+recs = [r for r in recs if not known(r)]
 for r in recs:
     c = tab.setdefault(r["cls"], {"t": {}, "d": {}, "n": 0})
     c["n"] += 1
@@ -17,19 +30,30 @@ for r in recs:
     if r["d"] >= 3:
         k = db(r["d"]); c["d"].setdefault(k, []).append(r["err"])
     else:
-        k = tb(r["t"]); c["t"].setdefault(k, []).append(r["err"])
+        k = tb(r["t"]); c["t"].setdefault(r.get("near", "surface"), {}).setdefault(k, []).append(r["err"])
 for cls in sorted(tab):
     print(cls, "n =", tab[cls]["n"])
-    for which in ("t", "d"):
-        keys = sorted(tab[cls][which], key=lambda x: (x != "0", int(x)))
-        print("   ", which, " ".join(f"[{k}: {max(tab[cls][which][k]):.1e}/{len(tab[cls][which][k])}]" for k in keys))
+    for near in sorted(tab[cls]["t"]):
+        keys = sorted(tab[cls]["t"][near], key=lambda x: (x != "0", int(x)))
+        print("    t", near, " ".join(f"[{k}: {max(tab[cls]['t'][near][k]):.1e}/{len(tab[cls]['t'][near][k])}]" for k in keys))
+    keys = sorted(tab[cls]["d"], key=int)
+    print("    d", " ".join(f"[{k}: {max(tab[cls]['d'][k]):.1e}/{len(tab[cls]['d'][k])}]" for k in keys))
 if "--write" in sys.argv:
     out = {}
     for cls, c in tab.items():
         out[cls] = {"default": 1e-6, "t": {}, "d": {}}
-        for which in ("t", "d"):
-            for k, v in c[which].items():
-                out[cls][which][k] = float(min(1.0, max(1e-6, 100 * max(v))))
+        for near, buckets in c["t"].items():
+            out[cls]["t"][near] = {}
+            ks = sorted(buckets, key=lambda x: (x != "0", int(x)))
+            raw = {k: max(buckets[k]) for k in ks}
+            for k in ks:
+                # widen by the neighbouring buckets (one decade each way); the exact set ("0") stands alone
+                vals = [raw[k]]
+                if k != "0":
+                    vals += [raw[j] for j in (str(int(k) - 1), str(int(k) + 1)) if j in raw]
+                out[cls]["t"][near][k] = float(min(CAP, max(1e-6, 100 * max(vals))))
+        for k, v in c["d"].items():
+            out[cls]["d"][k] = float(min(CAP, max(1e-6, 100 * max(v))))
     p = os.path.join(os.path.dirname(os.path.dirname(os.path.abspath(__file__))), "tolerances.json")
     cur = json.load(open(p)) if os.path.exists(p) else {}
     cur["C01"] = out
